@@ -4,13 +4,14 @@ From LV Require Import Reactive.RxUtil Reactive.Async.
 Import ListNotations.
 
 (** reduce projections of setter applications, nothing else *)
-Ltac sf := cbn [sigs refetch_n seen st_dirty flag woken rx_reg polled version value loading wakers task init_fut first_run futs manual cap d_set d_dirty d_first d_woken d_reg d_sub d_seen dlog awaiters legit notified set_sigs set_refetch_n set_seen set_st_dirty set_flag set_woken set_rx_reg set_polled set_version set_value set_loading set_wakers set_task set_init_fut set_first_run set_futs set_manual set_cap set_d_set set_d_dirty set_d_first set_d_woken set_d_reg set_d_sub set_d_seen set_dlog set_awaiters set_legit set_notified].
-Ltac sf_in H := cbn [sigs refetch_n seen st_dirty flag woken rx_reg polled version value loading wakers task init_fut first_run futs manual cap d_set d_dirty d_first d_woken d_reg d_sub d_seen dlog awaiters legit notified set_sigs set_refetch_n set_seen set_st_dirty set_flag set_woken set_rx_reg set_polled set_version set_value set_loading set_wakers set_task set_init_fut set_first_run set_futs set_manual set_cap set_d_set set_d_dirty set_d_first set_d_woken set_d_reg set_d_sub set_d_seen set_dlog set_awaiters set_legit set_notified] in H.
+Ltac sf := cbn [sigs refetch_n seen st_dirty flag woken rx_reg polled version value loading wakers task init_fut first_run futs manual cap d_set d_dirty d_first d_woken d_reg d_sub d_seen dlog awaiters legit notified aw_sus susp_reg susp_held set_sigs set_refetch_n set_seen set_st_dirty set_flag set_woken set_rx_reg set_polled set_version set_value set_loading set_wakers set_task set_init_fut set_first_run set_futs set_manual set_cap set_d_set set_d_dirty set_d_first set_d_woken set_d_reg set_d_sub set_d_seen set_dlog set_awaiters set_legit set_notified set_aw_sus set_susp_reg set_susp_held].
+Ltac sf_in H := cbn [sigs refetch_n seen st_dirty flag woken rx_reg polled version value loading wakers task init_fut first_run futs manual cap d_set d_dirty d_first d_woken d_reg d_sub d_seen dlog awaiters legit notified aw_sus susp_reg susp_held set_sigs set_refetch_n set_seen set_st_dirty set_flag set_woken set_rx_reg set_polled set_version set_value set_loading set_wakers set_task set_init_fut set_first_run set_futs set_manual set_cap set_d_set set_d_dirty set_d_first set_d_woken set_d_reg set_d_sub set_d_seen set_dlog set_awaiters set_legit set_notified set_aw_sus set_susp_reg set_susp_held] in H.
 
 Definition gc (c : cfg) : Prop := hidden c = true /\ own_only c = true /\ drop_stale c = true.
 
 (** * the inputs the fetcher reads, as a function of the memo values *)
 Definition iv (c : cfg) (l : list Z) : Z * Z :=
+  if once c then (7, 7)%Z else
   match shape c with
   | O => (0, 0)%Z
   | 1%nat => (nth 0 l 0, nth 1 l 0)%Z
@@ -29,7 +30,8 @@ Proof. intros E1 E2. unfold capof. rewrite (inputs_sigs c s x E1), E2. reflexivi
 
 Lemma inputs_iv c s : shape c <> 0%nat -> inputs c s = iv c (curvals c s).
 Proof.
-  unfold inputs, iv, curvals. destruct (shape c) as [|[|[|n]]]; intros H; try reflexivity. congruence.
+  unfold inputs, iv, curvals. destruct (once c); [reflexivity|].
+  destruct (shape c) as [|[|[|n]]]; intros H; try reflexivity. congruence.
 Qed.
 
 (** * the invariant *)
@@ -49,7 +51,9 @@ Record INV (c : cfg) (e : bool) (s : node) : Prop := {
   i_E : e = true -> st_dirty s = true \/ first_run s = true \/ seen s <> curvals c s -> flag s = true;
   i_init : forall i, init_fut s = Some i ->
            first_run s = true /\
-           exists fu, nth_error (futs s) i = Some fu /\ f_alive fu = true /\ f_res fu = fetchf c (cap s)
+           exists fu, nth_error (futs s) i = Some fu /\ f_alive fu = true /\ f_res fu = fetchf c (cap s);
+  (* Suspense task handles are only held while a load is in flight *)
+  i_sus : task s = TIdle -> susp_held s = 0%nat
 }.
 
 (** the part about waking the task, which does not hold inside the task's own loop *)
@@ -130,7 +134,8 @@ Record agree (s x : node) : Prop := {
   ag_manual : manual x = manual s;
   ag_cap : cap x = cap s;
   ag_legit : legit x = legit s;
-  ag_len : length (seen x) = length (seen s)
+  ag_len : length (seen x) = length (seen s);
+  ag_susp_held : susp_held x = susp_held s
 }.
 
 Lemma agree_curvals c s x : agree s x -> curvals c x = curvals c s.
@@ -160,6 +165,7 @@ Proof.
   - rewrite ag_task0, ag_first_run0, ag_manual0, ag_value0, ag_cap0. eauto.
   - rewrite ag_task0, ag_first_run0, ag_loading0. eauto.
   - intros i. rewrite ag_init_fut0, ag_first_run0, ag_futs0, ag_cap0. eauto.
+  - rewrite ag_task0, ag_susp_held0. eauto.
 Qed.
 
 Lemma agree_notify s : agree s (n_notify s).
@@ -262,12 +268,14 @@ Proof.
   rewrite H. destruct (refresh c j _) as [ch s']. rewrite andb_true_r. reflexivity.
 Qed.
 
-Lemma curvals_len c s : length (curvals c s) = match shape c with O => 0 | _ => 2 end%nat.
-Proof. unfold curvals. destruct (shape c) as [|[|[|n]]]; reflexivity. Qed.
+Lemma curvals_len c s :
+  length (curvals c s) = (if once c then 0 else match shape c with O => 0 | _ => 2 end)%nat.
+Proof. unfold curvals. destruct (once c); [reflexivity|]. destruct (shape c) as [|[|[|n]]]; reflexivity. Qed.
 
 Lemma pulls_lt c j k s : In k (pulls c j) -> (k < length (curvals c s))%nat.
 Proof.
-  unfold pulls. rewrite curvals_len. destruct (shape c) as [|[|[|n]]]; try (intros []).
+  unfold pulls. rewrite curvals_len. destruct (once c); [intros []|].
+  destruct (shape c) as [|[|[|n]]]; try (intros []).
   destruct j; [|intros []]. intros [<-|[]]. lia.
 Qed.
 
@@ -523,7 +531,7 @@ Lemma notify_subs_fields s :
   flag x = flag s /\ woken x = woken s /\ rx_reg x = rx_reg s /\ version x = version s /\
   value x = value s /\ loading x = false /\ wakers x = [] /\ task x = task s /\
   init_fut x = init_fut s /\ first_run x = first_run s /\ futs x = futs s /\ manual x = manual s /\
-  cap x = cap s /\ legit x = legit s.
+  cap x = cap s /\ legit x = legit s /\ susp_held x = susp_held s.
 Proof.
   unfold notify_subs, d_mark_dirty, d_notify. sf.
   destruct (d_sub s); sf; [destruct (d_reg s); sf|]; repeat split; reflexivity.
@@ -533,7 +541,7 @@ Qed.
 Lemma inv_notify_subs c e s : INV c e s -> INV c e (notify_subs s).
 Proof.
   intros I.
-  destruct (notify_subs_fields s) as (E1 & E2 & E3 & E4 & E5 & E6 & E7 & E8 & E9 & E10 & E11 & E12 & E13 & E14 & E15 & E16 & E17 & E18).
+  destruct (notify_subs_fields s) as (E1 & E2 & E3 & E4 & E5 & E6 & E7 & E8 & E9 & E10 & E11 & E12 & E13 & E14 & E15 & E16 & E17 & E18 & E19).
   assert (Ec : curvals c (notify_subs s) = curvals c s)
     by (unfold curvals, m3_of, m2_of, sg; rewrite E1, E2; reflexivity).
   destruct I. constructor.
@@ -547,29 +555,33 @@ Proof.
   - rewrite E4, E17. intros Hd. rewrite (i_D0 Hd). symmetry. apply capof_eq; auto.
   - rewrite E4, E14, E3, E5, Ec. eauto.
   - intros i. rewrite E13, E14, E15, E17. eauto.
+  - rewrite E12, E19. eauto.
 Qed.
 
 (** a completed fetch is stored and the task goes back to waiting *)
 Lemma inv_store c e s f v fu : INV c e s -> task s = TFetch f v ->
-  nth_error (futs s) f = Some fu -> INV c e (set_task TIdle (store (f_res fu) s)).
+  nth_error (futs s) f = Some fu -> susp_held s = 0%nat ->
+  INV c e (set_task TIdle (store (f_res fu) s)).
 Proof.
-  intros I Ht Hf. destruct (i_A c e s I f v Ht) as (Hfr & fu' & Hf' & Hal & Hres).
+  intros I Ht Hf Hs0. destruct (i_A c e s I f v Ht) as (Hfr & fu' & Hf' & Hal & Hres).
   rewrite Hf in Hf'. inversion Hf'; subst fu'.
   unfold store.
   set (s1 := set_legit (f_res fu :: legit s) (set_manual false (set_value (Some (f_res fu)) s))).
   assert (I1 : INV c e s1).
-  { destruct I. constructor; unfold s1; cbn [task version loading wakers value legit seen futs first_run manual cap st_dirty flag init_fut set_legit set_manual set_value]; auto.
+  { destruct I. constructor; unfold s1; cbn [task version loading wakers value legit seen futs first_run manual cap st_dirty flag init_fut susp_held set_legit set_manual set_value]; auto.
     - intros v0 Hv. inversion Hv. left. reflexivity.
     - rewrite Ht. discriminate. }
   pose proof (inv_notify_subs c e s1 I1) as Ix.
-  destruct (notify_subs_fields s1) as (E1 & E2 & E3 & E4 & E5 & E6 & E7 & E8 & E9 & E10 & E11 & E12 & E13 & E14 & E15 & E16 & E17 & E18).
+  destruct (notify_subs_fields s1) as (E1 & E2 & E3 & E4 & E5 & E6 & E7 & E8 & E9 & E10 & E11 & E12 & E13 & E14 & E15 & E16 & E17 & E18 & E19).
   assert (Hv1 : value s1 = Some (f_res fu)) by reflexivity.
   assert (Hc1 : cap s1 = cap s) by reflexivity.
+  assert (Hh1 : susp_held s1 = 0%nat) by exact Hs0.
   set (x := notify_subs s1) in *. clearbody x. clearbody s1.
   destruct Ix. constructor; sf; auto.
   - discriminate.
   - discriminate.
   - intros _ _ _. rewrite E9, E17, Hv1, Hc1, Hres. reflexivity.
+  - intros _. congruence.
 Qed.
 
 Lemma wk_woken s : WK (set_woken true s).
@@ -611,6 +623,7 @@ Proof.
     + discriminate.
     + exfalso. apply H. erewrite Ecx by reflexivity. exact Hseen.
   - rewrite (ag_init_fut _ _ A), Hinit. discriminate.
+  - discriminate.
 Qed.
 
 Lemma inv_start_init c s i : INV c false s -> task s = TIdle -> init_fut s = Some i ->
@@ -638,6 +651,8 @@ Qed.
 
 Lemma inv_set_woken c e s b : INV c e s -> INV c e (set_woken b s).
 Proof. intros []. constructor; sf; auto. Qed.
+Lemma inv_susp_held c e s : INV c e s -> INV c e (set_susp_held 0%nat s).
+Proof. intros []. constructor; sf; auto. Qed.
 Lemma inv_set_rx c e s b : INV c e s -> INV c e (set_rx_reg b s).
 Proof. intros []. constructor; sf; auto. Qed.
 Lemma inv_set_flag_off c e s b : INV c e s -> INV c false (set_flag b s).
@@ -647,6 +662,12 @@ Lemma inv_strengthen c s : INV c false s -> st_dirty s = false -> first_run s = 
 Proof.
   intros [] H1 H2 H3. constructor; auto. intros _ [H|[H|H]]; [congruence|congruence|contradiction].
 Qed.
+
+Lemma inv_started_susp c e fid s a b : INV c e (started fid s) ->
+  INV c e (set_task (TFetch fid (S (version s)))
+             (set_version (S (version s)) (set_loading true (set_first_run false
+                (set_susp_held a (set_susp_reg b s)))))).
+Proof. unfold started. intros []. constructor; sf; auto; discriminate. Qed.
 
 Lemma n_loop_inv c fuel : gc c -> forall s, INV c true s ->
   INV c true (n_loop c fuel s) /\ WK (n_loop c fuel s).
@@ -681,14 +702,14 @@ Proof.
       rewrite Hi.
       pose proof (inv_start_create c sd) as Hst.
       destruct (create_fut c sd) as [fid s4]. cbn [fst snd] in Hst.
-      apply IH. apply Hst; try congruence.
+      apply IH. apply inv_started_susp. apply Hst; try congruence.
       intros v. rewrite Hv, Hl. apply Hprov3.
     + destruct (Hu eq_refl) as (I3 & Hs3 & _). cbn [orb andb].
       destruct (first_run s3) eqn:Hfr.
       * destruct (init_fut s3) as [i|] eqn:Hi.
-        -- apply IH. apply (inv_start_init c s3 i I3 Ht3 Hi Hd3 Hs3).
+        -- apply IH. apply (inv_started_susp c true i (set_init_fut None s3)). apply (inv_start_init c s3 i I3 Ht3 Hi Hd3 Hs3).
         -- pose proof (inv_start_create c s3 Hprov3 Hlen3 Hd3 Hi) as Hst.
-           destruct (create_fut c s3) as [fid s4]. cbn [fst snd] in Hst. apply IH. exact Hst.
+           destruct (create_fut c s3) as [fid s4]. cbn [fst snd] in Hst. apply IH. apply inv_started_susp. exact Hst.
       * apply IH. apply inv_strengthen; auto.
   - (* awaiting the fetch *)
     destruct (nth_error (futs s) fid) as [fu|] eqn:Hf.
@@ -698,8 +719,9 @@ Proof.
     2: { split; [exact I|]. constructor; try (rewrite Ht; discriminate).
          intros f0 v0 fu0 Ht0 Hn0 Hd0. rewrite Ht in Ht0. inversion Ht0; subst.
          rewrite Hf in Hn0. inversion Hn0; subst. congruence. }
+    change (version (set_susp_held 0%nat s)) with (version s).
     rewrite <- (i_ser c true s I fid v Ht), Nat.eqb_refl.
-    apply IH. eapply inv_store; eauto.
+    apply IH. apply (inv_store c true (set_susp_held 0%nat s) fid v fu); [apply inv_susp_held; exact I|exact Ht|exact Hf|reflexivity].
 Qed.
 
 (** * steps that only touch the dependent's / awaiters' fields *)
@@ -820,7 +842,8 @@ Record agree2 (s x : node) : Prop := {
   a2_loading : loading x = loading s; a2_wakers : wakers x = wakers s;
   a2_task : task x = task s; a2_init_fut : init_fut x = init_fut s;
   a2_first_run : first_run x = first_run s; a2_futs : futs x = futs s;
-  a2_manual : manual x = manual s; a2_cap : cap x = cap s; a2_legit : legit x = legit s
+  a2_manual : manual x = manual s; a2_cap : cap x = cap s; a2_legit : legit x = legit s;
+  a2_susp_held : susp_held x = susp_held s
 }.
 
 Lemma inv_transfer2 c e s x : INV c e s -> agree2 s x ->
@@ -837,9 +860,11 @@ Proof.
   - rewrite a2_task0, a2_first_run0, a2_manual0, a2_value0, a2_cap0. eauto.
   - rewrite a2_task0, a2_first_run0, a2_loading0. eauto.
   - intros i. rewrite a2_init_fut0, a2_first_run0, a2_futs0, a2_cap0. eauto.
+  - rewrite a2_task0, a2_susp_held0. eauto.
 Qed.
 
 Definition tracked (c : cfg) (i : nat) : bool :=
+  if once c then false else
   match shape c, i with
   | O, O | O, 1%nat | 1%nat, O | 1%nat, 1%nat | 2%nat, O | S (S (S _)), O => true
   | _, _ => false
@@ -855,6 +880,7 @@ Proof.
   assert (H0 : i <> 0%nat -> sg x 0 = sg s 0) by (intros H; apply (sg_upd_other s x i 0 v); [lia|exact Es]).
   assert (H1 : i <> 1%nat -> sg x 1 = sg s 1) by (intros H; apply (sg_upd_other s x i 1 v); [lia|exact Es]).
   unfold tracked in Ht. unfold curvals, inputs, m3_of, m2_of.
+  destruct (once c);
   destruct (shape c) as [|[|[|n]]]; destruct i as [|[|i]]; try discriminate;
     try (rewrite H0 by lia); try (rewrite H1 by lia); rewrite ?Er; auto.
 Qed.
@@ -869,7 +895,8 @@ Proof.
   assert (Hl1 : length (seen s1) = length (curvals c s1)).
   { rewrite curvals_len. change (seen s1) with (seen s). rewrite (i_len c true s I), curvals_len. reflexivity. }
   unfold write_marks.
-  set (s2 := match shape c, i with
+  set (s2 := if once c then s1 else
+             match shape c, i with
              | O, O | O, 1%nat => n_mark_dirty s1
              | 1%nat, O | 1%nat, 1%nat => n_mark_check s1
              | 2%nat, O => n_mark_check s1
@@ -879,8 +906,8 @@ Proof.
   { destruct (tracked c i) eqn:Htr.
     - (* a tracked signal: the node is told *)
       assert (Hcases : (shape c = 0%nat /\ s2 = n_mark_dirty s1) \/ (shape c <> 0%nat /\ s2 = n_mark_check s1)).
-      { unfold tracked in Htr. unfold s2. destruct (shape c) as [|[|[|n]]]; destruct i as [|[|i]];
-          try discriminate; auto. }
+      { unfold tracked in Htr. unfold s2. destruct (once c); [discriminate|].
+        destruct (shape c) as [|[|[|n]]]; destruct i as [|[|i]]; try discriminate; auto. }
       destruct Hcases as [(Hs & ->)|(Hs & ->)].
       + split; [|apply wk_mark_dirty; exact W1].
         apply (inv_transfer2 c true s).
@@ -903,8 +930,8 @@ Proof.
         * intros _ _. exact Hf1.
     - (* an input the node does not read *)
       assert (Es2 : s2 = s1).
-      { unfold tracked in Htr. unfold s2. destruct (shape c) as [|[|[|n]]]; destruct i as [|[|i]];
-          try discriminate; reflexivity. }
+      { unfold tracked in Htr. unfold s2. destruct (once c); [reflexivity|].
+        destruct (shape c) as [|[|[|n]]]; destruct i as [|[|i]]; try discriminate; reflexivity. }
       rewrite Es2. split; [|exact W1].
       destruct (untracked_same c s s1 i v Htr eq_refl eq_refl) as (Hc & Hi).
       apply (inv_transfer2 c true s); auto.
@@ -927,32 +954,38 @@ Proof.
   assert (Hl1 : length (seen s1) = length (curvals c s1)).
   { rewrite curvals_len. change (seen s1) with (seen s). rewrite (i_len c true s I), curvals_len. reflexivity. }
   assert (Hi : inputs c s1 = inputs c s) by reflexivity.
+  (* when the refetch counter is not among the memo sources, the counter is invisible *)
+  assert (Isame : curvals c s1 = curvals c s -> INV c true s1).
+  { intros Hc. apply (inv_transfer2 c true s); auto.
+    - change (st_dirty s1) with (st_dirty s). change (cap s1) with (cap s). intros Hd.
+      rewrite (i_D c true s I Hd). unfold capof. rewrite Hi. reflexivity.
+    - change (st_dirty s1) with (st_dirty s). change (first_run s1) with (first_run s).
+      change (seen s1) with (seen s). change (flag s1) with (flag s). rewrite Hc. exact (i_E c true s I). }
+  destruct (once c) eqn:Ho.
+  { split; [apply Isame; unfold curvals; rewrite Ho; reflexivity|exact W1]. }
   destruct (shape c) as [|[|[|n]]] eqn:Hs.
-  1-3: split; [|exact W1]; apply (inv_transfer2 c true s); auto;
-    [ change (st_dirty s1) with (st_dirty s); change (cap s1) with (cap s); intros Hd;
-      rewrite (i_D c true s I Hd); unfold capof; rewrite Hs; try rewrite Hi; reflexivity
-    | change (st_dirty s1) with (st_dirty s); change (first_run s1) with (first_run s);
-      change (seen s1) with (seen s); change (flag s1) with (flag s);
-      replace (curvals c s1) with (curvals c s) by (unfold curvals; rewrite Hs; reflexivity);
-      exact (i_E c true s I) ].
-  (* resource-like: the refetch counter is part of the tracked memo *)
-  split; [|apply wk_notify; exact W1].
-  assert (Hf : flag (n_mark_check s1) = true /\ st_dirty (n_mark_check s1) = st_dirty s /\
-               seen (n_mark_check s1) = seen s /\ cap (n_mark_check s1) = cap s).
-  { unfold n_mark_check, n_notify. sf. destruct (rx_reg s1); sf; auto. }
-  destruct Hf as (Hf1 & Hf2 & Hf3 & Hf4).
-  apply (inv_transfer2 c true s).
-  - exact I.
-  - destruct A1. unfold n_mark_check, n_notify. sf. destruct (rx_reg s1); constructor; auto.
-  - unfold n_mark_check, n_notify. sf. destruct (rx_reg s1); exact Hl1.
-  - rewrite Hf2, Hf4. intros Hd. rewrite (i_D c true s I Hd). unfold capof. rewrite Hs, Hf3. reflexivity.
-  - intros _ _. exact Hf1.
+  - assert (I1 : INV c true s1) by (apply Isame; unfold curvals; rewrite Ho, Hs; reflexivity).
+    destruct (rf_tracks c); [split; [apply inv_mark_dirty; exact I1|apply wk_mark_dirty; exact W1]|auto].
+  - split; [apply Isame; unfold curvals; rewrite Ho, Hs; reflexivity|exact W1].
+  - split; [apply Isame; unfold curvals, m3_of, m2_of, sg; rewrite Ho, Hs; reflexivity|exact W1].
+  - (* resource-like: the refetch counter is part of the tracked memo *)
+    split; [|apply wk_notify; exact W1].
+    assert (Hf : flag (n_mark_check s1) = true /\ st_dirty (n_mark_check s1) = st_dirty s /\
+                 seen (n_mark_check s1) = seen s /\ cap (n_mark_check s1) = cap s).
+    { unfold n_mark_check, n_notify. sf. destruct (rx_reg s1); sf; auto. }
+    destruct Hf as (Hf1 & Hf2 & Hf3 & Hf4).
+    apply (inv_transfer2 c true s).
+    + exact I.
+    + destruct A1. unfold n_mark_check, n_notify. sf. destruct (rx_reg s1); constructor; auto.
+    + unfold n_mark_check, n_notify. sf. destruct (rx_reg s1); exact Hl1.
+    + rewrite Hf2, Hf4. intros Hd. rewrite (i_D c true s I Hd). unfold capof. rewrite Hs, Hf3. reflexivity.
+    + intros _ _. exact Hf1.
 Qed.
 
 Lemma wk_notify_subs s : WK s -> WK (notify_subs s).
 Proof.
   intros [F1 F2 G].
-  destruct (notify_subs_fields s) as (E1 & E2 & E3 & E4 & E5 & E6 & E7 & E8 & E9 & E10 & E11 & E12 & E13 & E14 & E15 & E16 & E17 & E18).
+  destruct (notify_subs_fields s) as (E1 & E2 & E3 & E4 & E5 & E6 & E7 & E8 & E9 & E10 & E11 & E12 & E13 & E14 & E15 & E16 & E17 & E18 & E19).
   constructor.
   - rewrite E12, E6, E7. exact F1.
   - rewrite E12, E5, E6. exact F2.
@@ -1011,12 +1044,17 @@ Proof.
 Qed.
 
 Lemma awaiter_ok c s a : INV c true s -> WK s ->
-  INV c true (poll_awaiter a s) /\ WK (poll_awaiter a s).
+  INV c true (poll_awaiter c a s) /\ WK (poll_awaiter c a s).
 Proof.
-  intros I W. unfold poll_awaiter. destruct (nth_error (awaiters s) a) as [[w|v|]|]; auto.
-  destruct (loading s) eqn:Hl.
-  - split; [|destruct W; constructor; auto]. destruct I. constructor; sf; auto. congruence.
-  - split; [|destruct W; constructor; auto]. destruct I. constructor; sf; auto.
+  intros I W. unfold poll_awaiter. destruct (nth_error (awaiters s) a) as [[g w|v|]|]; auto.
+  set (s1 := if nth a (aw_sus s) false && negb (once c) then set_susp_reg (S (susp_reg s)) s else s).
+  assert (I1 : INV c true s1 /\ WK s1 /\ loading s1 = loading s).
+  { unfold s1. destruct (nth a (aw_sus s) false && negb (once c)); [|auto].
+    split; [destruct I; constructor; sf; auto|split; [destruct W; constructor; auto|reflexivity]]. }
+  destruct I1 as (I1 & W1 & Hl). clearbody s1.
+  destruct (loading s1) eqn:Hl1.
+  - split; [|destruct W1; constructor; auto]. destruct I1. constructor; sf; auto. congruence.
+  - split; [|destruct W1; constructor; auto]. destruct I1. constructor; sf; auto.
 Qed.
 
 Lemma poll_task_ok c t s : gc c -> INV c true s -> WK s ->
@@ -1052,13 +1090,15 @@ Qed.
 (** * construction *)
 Lemma init_ok c initial : INV c true (init c initial) /\ WK (init c initial).
 Proof.
-  destruct c as [sh dp h o d ff].
+  destruct c as [sh dp h o d rt on ff].
   assert (Hnth : forall (x : fut), nth_error [x] 0 = Some x) by reflexivity.
-  destruct sh as [|[|[|n]]]; destruct initial as [v0|]; destruct dp as [|dp];
+  destruct on; destruct sh as [|[|[|n]]]; destruct initial as [v0|]; destruct dp as [|dp];
     (split; [constructor|constructor]); cbn; intros; try discriminate; try reflexivity; auto;
     try (match goal with H : Some _ = Some _ |- _ => inversion H; subst end);
     try (split; [reflexivity|eexists; split; [reflexivity|split; reflexivity]]);
     try (left; reflexivity); try (right; reflexivity); try tauto.
+  all: match goal with H : TFetch _ _ = TFetch _ _ |- _ => inversion H; subst end; try reflexivity.
+  all: split; [reflexivity|eexists; split; [reflexivity|split; reflexivity]].
 Qed.
 
 (** * theorems: for all histories (source writes, refetches, manual writes, completions in any
@@ -1117,30 +1157,37 @@ Theorem awaiters_resumed : forall c initial evs, gc c ->
 Proof. intros c initial evs G. exact (i_parked c true _ (proj1 (reach c initial evs G))). Qed.
 
 (** … because whenever loading goes off, every parked awaiter's waker is invoked *)
-Lemma wake_fold ws : forall aws a w, nth_error aws a = Some (APending w) ->
-  nth_error (fold_left (fun aws a => upd a wake_awaiter aws) ws aws) a =
-  Some (APending (w + count_occ Nat.eq_dec ws a)).
+Definition pair_dec : forall x y : nat * nat, {x = y} + {x <> y}.
+Proof. decide equality; apply Nat.eq_dec. Defined.
+
+Lemma wake_fold ws : forall aws a g w, nth_error aws a = Some (APending g w) ->
+  nth_error (fold_left (fun aws ag => upd (fst ag) (wake_awaiter (snd ag)) aws) ws aws) a =
+  Some (APending g (w + count_occ pair_dec ws (a, g))).
 Proof.
-  induction ws as [|x ws IH]; intros aws a w Ha; cbn [fold_left count_occ].
+  induction ws as [|[a' g'] ws IH]; intros aws a g w Ha; cbn [fold_left count_occ fst snd].
   - rewrite Nat.add_0_r. exact Ha.
-  - destruct (Nat.eq_dec x a) as [->|Hne].
-    + rewrite (IH _ a (S w)); [f_equal; f_equal; lia|].
-      rewrite nth_error_upd_same, Ha. reflexivity.
-    + rewrite (IH _ a w); [reflexivity|]. rewrite nth_error_upd_other; auto.
+  - destruct (pair_dec (a', g') (a, g)) as [E|Hne].
+    + inversion E; subst a' g'. rewrite (IH _ a g (S w)); [f_equal; f_equal; lia|].
+      rewrite nth_error_upd_same, Ha. cbn. rewrite Nat.eqb_refl. reflexivity.
+    + destruct (Nat.eq_dec a' a) as [->|Hna].
+      * rewrite (IH _ a g w); [reflexivity|]. rewrite nth_error_upd_same, Ha. cbn.
+        destruct (Nat.eqb_spec g g'); [subst; congruence|reflexivity].
+      * rewrite (IH _ a g w); [reflexivity|]. rewrite nth_error_upd_other; auto.
 Qed.
 
-Theorem parked_awaiters_woken : forall s a w,
-  In a (wakers s) -> nth_error (awaiters s) a = Some (APending w) ->
-  exists w', nth_error (awaiters (notify_subs s)) a = Some (APending w') /\ (w < w')%nat.
+(** every awaiter parked with its latest waker has that waker invoked *)
+Theorem parked_awaiters_woken : forall s a g w,
+  In (a, g) (wakers s) -> nth_error (awaiters s) a = Some (APending g w) ->
+  exists w', nth_error (awaiters (notify_subs s)) a = Some (APending g w') /\ (w < w')%nat.
 Proof.
-  intros s a w Hin Ha. exists (w + count_occ Nat.eq_dec (wakers s) a)%nat. split.
+  intros s a g w Hin Ha. exists (w + count_occ pair_dec (wakers s) (a, g))%nat. split.
   - unfold notify_subs. sf.
     assert (E : forall x, awaiters x = awaiters s -> wakers x = wakers s ->
-              nth_error (fold_left (fun aws a0 => upd a0 wake_awaiter aws) (wakers x) (awaiters x)) a =
-              Some (APending (w + count_occ Nat.eq_dec (wakers s) a))).
+              nth_error (fold_left (fun aws ag => upd (fst ag) (wake_awaiter (snd ag)) aws) (wakers x) (awaiters x)) a =
+              Some (APending g (w + count_occ pair_dec (wakers s) (a, g)))).
     { intros x E1 E2. rewrite E1, E2. apply wake_fold. exact Ha. }
     unfold d_mark_dirty, d_notify. destruct (d_sub s); sf; [destruct (d_reg s); sf|]; apply E; reflexivity.
-  - apply (count_occ_In Nat.eq_dec) in Hin. lia.
+  - apply (count_occ_In pair_dec) in Hin. lia.
 Qed.
 
 (** a synchronous read never returns a fabricated value *)
@@ -1166,7 +1213,7 @@ Definition quiescentb (s : node) : bool :=
   negb (woken s) && forallb (fun fu => f_done fu || negb (f_alive fu)) (futs s).
 
 (** F-C10: m2 changes, m3 (read first, depends on m2) does not: no refetch *)
-Definition w1_cfg : cfg := mkCfg 2 0 false false false ex_fetch.
+Definition w1_cfg : cfg := mkCfg 2 0 false false false false false ex_fetch.
 Definition w1_evs : list event := [RunAll []; Complete 0; RunAll []; WriteSig 0 1; RunAll []].
 Example quiescent_latest_prefix_refuted :
   let s := run w1_cfg None w1_evs in
@@ -1175,7 +1222,7 @@ Example quiescent_latest_prefix_refuted :
 Proof. vm_compute. auto. Qed.
 
 (** F-C10-b: the dependent, polled first, consumes the node's dirty state *)
-Definition w2_cfg : cfg := mkCfg 0 2 true false false ex_fetch.
+Definition w2_cfg : cfg := mkCfg 0 2 true false false false false ex_fetch.
 Definition w2_evs : list event :=
   [RunAll []; Complete 0; RunAll []; WriteSig 0 1; WriteSig 2 2; PollTask 1; PollTask 0; RunAll []].
 Example quiescent_latest_steal_refuted :
@@ -1185,7 +1232,7 @@ Example quiescent_latest_steal_refuted :
 Proof. vm_compute. auto. Qed.
 
 (** F-C10-c: a memo source changes before the first poll; the stale initial future is awaited *)
-Definition w3_cfg : cfg := mkCfg 1 0 true true false ex_fetch.
+Definition w3_cfg : cfg := mkCfg 1 0 true true false false false ex_fetch.
 Definition w3_evs : list event := [WriteSig 1 1; RunAll []; Complete 0; RunAll []].
 Example quiescent_latest_stale_initial_refuted :
   let s := run w3_cfg None w3_evs in
@@ -1194,7 +1241,7 @@ Example quiescent_latest_stale_initial_refuted :
 Proof. vm_compute. auto. Qed.
 
 (** the same three histories on the repaired code settle on the latest inputs *)
-Definition ok_cfg (sh dp : nat) : cfg := mkCfg sh dp true true true ex_fetch.
+Definition ok_cfg (sh dp : nat) : cfg := mkCfg sh dp true true true false false ex_fetch.
 Example witnesses_fixed :
   value (run (ok_cfg 2 0) None (w1_evs ++ [Complete 1; RunAll []])) = Some 10%Z /\
   value (run (ok_cfg 0 2) None (w2_evs ++ [Complete 1; RunAll []])) = Some 1000%Z /\
@@ -1204,7 +1251,7 @@ Proof. vm_compute. auto. Qed.
 (** non-vacuity: a quiescent state after overlapping changes, with a parked awaiter resumed *)
 Example ex_quiescent :
   let s := run (ok_cfg 3 1) (Some 0%Z)
-             [RunAll []; WriteSig 0 2; PollTask 0; Refetch; NewAwaiter; PollAwaiter 0;
+             [RunAll []; WriteSig 0 2; PollTask 0; Refetch; NewAwaiter true; PollAwaiter 0;
               Complete 1; RunAll []; Complete 2; RunAll [1%nat]; PollAwaiter 0] in
   quiescentb s = true /\ loading s = false /\ value s = Some 1000%Z /\
   awaiters s = [ADone 1000%Z] /\ dlog s = [Some 0%Z; Some 1000%Z; Some 1000%Z].
@@ -1241,7 +1288,7 @@ Lemma lstep_store s f fu : nth_error (futs s) f = Some fu -> f_done fu = true ->
 Proof.
   intros Hf Hd. unfold store.
   set (s1 := set_legit (f_res fu :: legit s) (set_manual false (set_value (Some (f_res fu)) s))).
-  destruct (notify_subs_fields s1) as (_ & _ & _ & _ & _ & _ & _ & _ & _ & _ & _ & _ & _ & _ & E15 & _ & _ & E18).
+  destruct (notify_subs_fields s1) as (_ & _ & _ & _ & _ & _ & _ & _ & _ & _ & _ & _ & _ & _ & E15 & _ & _ & E18 & _).
   constructor; sf; rewrite ?E15, ?E18; unfold s1; sf; eauto.
   intros v [<-|Hv]; [right; eauto|left; exact Hv].
 Qed.
@@ -1316,22 +1363,27 @@ Proof.
       assert (I4 : INV c true (started fid s4)).
       { apply Hst; try congruence. intros v. rewrite Hv, Hl. apply Hprov3. }
       eapply lstep_trans; [exact L03|]. eapply lstep_trans; [exact L3d|]. eapply lstep_trans; [exact Lc|].
-      eapply lstep_trans; [apply lstep_started|]. apply IH. exact I4.
+      eapply lstep_trans; [|apply IH; apply inv_started_susp; exact I4]. apply lstep_same; reflexivity.
     + destruct (Hu eq_refl) as (I3 & Hs3 & _). cbn [orb andb].
       assert (G' : gc c) by exact G.
       destruct (first_run s3) eqn:Hfr.
       * destruct (init_fut s3) as [i|] eqn:Hi.
-        -- eapply lstep_trans; [exact L03|]. eapply lstep_trans; [|apply IH; apply (inv_start_init c s3 i I3 Ht3 Hi Hd3 Hs3)].
+        -- eapply lstep_trans; [exact L03|].
+           eapply lstep_trans; [|apply IH; apply (inv_started_susp c true i (set_init_fut None s3));
+                                  apply (inv_start_init c s3 i I3 Ht3 Hi Hd3 Hs3)].
            apply lstep_same; reflexivity.
         -- pose proof (inv_start_create c s3 Hprov3 Hlen3 Hd3 Hi) as Hst. pose proof (lstep_create c s3) as Lc.
            destruct (create_fut c s3) as [fid s4]. cbn [fst snd] in Hst, Lc.
            eapply lstep_trans; [exact L03|]. eapply lstep_trans; [exact Lc|].
-           eapply lstep_trans; [apply lstep_started|]. apply IH. exact Hst.
+           eapply lstep_trans; [|apply IH; apply inv_started_susp; exact Hst]. apply lstep_same; reflexivity.
       * eapply lstep_trans; [exact L03|]. apply IH. apply inv_strengthen; auto.
   - destruct (nth_error (futs s) fid) as [fu|] eqn:Hf; [|apply lstep_refl].
     destruct (f_done fu) eqn:Hdone; [|apply lstep_refl].
+    change (version (set_susp_held 0%nat s)) with (version s).
     rewrite <- (i_ser c true s I fid v Ht), Nat.eqb_refl.
-    eapply lstep_trans; [apply (lstep_store s fid fu Hf Hdone)|]. apply IH. eapply inv_store; eauto.
+    eapply lstep_trans; [apply (lstep_same s (set_susp_held 0%nat s)); reflexivity|].
+    eapply lstep_trans; [apply (lstep_store (set_susp_held 0%nat s) fid fu Hf Hdone)|]. apply IH.
+    apply (inv_store c true (set_susp_held 0%nat s) fid v fu); [apply inv_susp_held; exact I|exact Ht|exact Hf|reflexivity].
 Qed.
 
 Lemma lstep_same_core s x : same_core s x -> lstep s x.
@@ -1417,7 +1469,7 @@ Qed.
 Lemma step_lstep c s ev : gc c -> INV c true s -> WK s ->
   (forall v, ev <> ManualSet v) -> lstep s (step c s ev).
 Proof.
-  intros G I W Hnm. destruct ev as [i v| |v| |f|t|picks| |a]; cbn [step].
+  intros G I W Hnm. destruct ev as [i v| |v| |f|t|picks|sus|a]; cbn [step].
   - unfold write_marks. set (s1 := set_sigs _ s).
     assert (L1 : lstep s s1) by (apply lstep_same; reflexivity).
     set (s2 := match shape c, i with
@@ -1426,13 +1478,16 @@ Proof.
     assert (L2 : lstep s1 s2).
     { unfold s2. destruct (shape c) as [|[|[|n]]]; destruct i as [|[|i]];
         try apply lstep_refl; try (apply lstep_agree, agree_mark_dirty); apply lstep_agree, agree_notify. }
-    eapply lstep_trans; [exact L1|]. eapply lstep_trans; [exact L2|].
+    assert (L2' : lstep s1 (if once c then s1 else s2)) by (destruct (once c); [apply lstep_refl|exact L2]).
+    eapply lstep_trans; [exact L1|]. eapply lstep_trans; [exact L2'|].
     destruct (_ && _ && _); [apply lstep_same_core, sc_d_notify|apply lstep_refl].
   - set (s1 := set_refetch_n _ s). assert (L1 : lstep s s1) by (apply lstep_same; reflexivity).
+    destruct (once c); [exact L1|].
     destruct (shape c) as [|[|[|n]]]; try exact L1.
-    eapply lstep_trans; [exact L1|apply lstep_agree, agree_notify].
+    + destruct (rf_tracks c); [|exact L1]. eapply lstep_trans; [exact L1|apply lstep_agree, agree_mark_dirty].
+    + eapply lstep_trans; [exact L1|apply lstep_agree, agree_notify].
   - exfalso. exact (Hnm v eq_refl).
-  - destruct (notify_subs_fields s) as (_ & _ & _ & _ & _ & _ & _ & _ & _ & _ & _ & _ & _ & _ & E15 & _ & _ & E18).
+  - destruct (notify_subs_fields s) as (_ & _ & _ & _ & _ & _ & _ & _ & _ & _ & _ & _ & _ & _ & E15 & _ & _ & E18 & _).
     apply lstep_same; assumption.
   - apply complete_lstep.
   - unfold poll_task. destruct t as [|[|t]]; [apply n_poll_lstep; auto| |apply lstep_refl].
@@ -1447,15 +1502,15 @@ Proof.
       destruct (0 <? dep c)%nat; [apply d_poll_lstep; auto|apply lstep_refl]. }
     apply H; auto.
   - apply lstep_same; reflexivity.
-  - unfold poll_awaiter. destruct (nth_error (awaiters s) a) as [[w|v|]|]; try apply lstep_refl.
-    destruct (loading s); apply lstep_same; reflexivity.
+  - unfold poll_awaiter. destruct (nth_error (awaiters s) a) as [[g w|v|]|]; try apply lstep_refl.
+    destruct (nth a (aw_sus s) false && negb (once c)); sf; destruct (loading s); apply lstep_same; reflexivity.
 Qed.
 
 Lemma manual_legit c s v :
   futs (step c s (ManualSet v)) = futs s /\ legit (step c s (ManualSet v)) = v :: legit s.
 Proof.
   cbn [step]. set (s1 := set_legit _ _).
-  destruct (notify_subs_fields s1) as (_ & _ & _ & _ & _ & _ & _ & _ & _ & _ & _ & _ & _ & _ & E15 & _ & _ & E18).
+  destruct (notify_subs_fields s1) as (_ & _ & _ & _ & _ & _ & _ & _ & _ & _ & _ & _ & _ & _ & E15 & _ & _ & E18 & _).
   rewrite E15, E18. split; reflexivity.
 Qed.
 
@@ -1485,10 +1540,10 @@ Proof.
 Qed.
 
 Lemma init_legit c initial :
-  legit (init c initial) = match initial with Some v => [v] | None => [] end.
+  legit (init c initial) = if once c then [] else match initial with Some v => [v] | None => [] end.
 Proof.
-  destruct c as [sh dp h o d ff].
-  destruct sh as [|[|[|n]]]; destruct initial as [v0|]; destruct dp as [|dp]; reflexivity.
+  destruct c as [sh dp h o d rt on ff].
+  destruct on; destruct sh as [|[|[|n]]]; destruct initial as [v0|]; destruct dp as [|dp]; reflexivity.
 Qed.
 
 (** nothing fabricated: every value the node ever regards as legitimate — in particular every
@@ -1524,6 +1579,55 @@ Proof.
     - destruct (Hmono evs0 _ IW1 f fu Hf Hd) as (fu' & H' & D' & R'). right. right. exists f, fu'.
       repeat split; auto; congruence. }
   destruct (H evs (init c initial) (init_ok c initial) v Hl) as [H0|H0]; [|right; exact H0].
-  left. rewrite init_legit in H0. destruct initial as [v0|]; [|destruct H0].
+  left. rewrite init_legit in H0. destruct (once c); [destruct H0|].
+  destruct initial as [v0|]; [|destruct H0].
   destruct H0 as [<-|[]]. reflexivity.
 Qed.
+
+(** * Suspense *)
+(** a child of a Suspense boundary that awaits the value registers the boundary with the node
+    on every poll, whether the value is loading or already resolved *)
+Theorem suspense_registers : forall c s a g w,
+  once c = false -> nth_error (awaiters s) a = Some (APending g w) -> nth a (aw_sus s) false = true ->
+  susp_reg (poll_awaiter c a s) = S (susp_reg s).
+Proof.
+  intros c s a g w Ho Ha Hs. unfold poll_awaiter. rewrite Ha, Hs, Ho. cbn [andb negb].
+  change (loading (set_susp_reg (S (susp_reg s)) s)) with (loading s). destruct (loading s); reflexivity.
+Qed.
+
+(** when the next load starts, every boundary registered since the previous one gets a pending
+    task, which it keeps until that load's future has completed *)
+Theorem suspense_told_of_load : forall fid s a b,
+  let s' := set_task (TFetch fid (S (version s)))
+              (set_version (S (version s)) (set_loading true (set_first_run false
+                 (set_susp_held a (set_susp_reg b s))))) in
+  susp_held s' = a /\ susp_reg s' = b.
+Proof. intros. split; reflexivity. Qed.
+
+(** no Suspense task is left pending once the node's task is back to waiting; in particular at
+    every quiescent point *)
+Theorem suspense_released : forall c initial evs, gc c ->
+  let s := run c initial evs in
+  quiescent s -> susp_held s = 0%nat.
+Proof.
+  intros c initial evs G s (Hw & Hq). destruct (reach c initial evs G) as (I & W). fold s in I, W.
+  apply (i_sus c true s I).
+  destruct (task s) as [|f v] eqn:Ht; [reflexivity|]. exfalso.
+  destruct (i_A c true s I f v Ht) as (_ & fu & Hf & Hal & _).
+  destruct (Hq f fu Hf) as [Hd|Hd]; [|congruence].
+  pose proof (w_G s W f v fu Ht Hf Hd). congruence.
+Qed.
+
+(** the once-resource and a Suspense child that awaited an already resolved value *)
+Example ex_once :
+  let s := run (mkCfg 0 1 true true true false true ex_fetch) None
+             [NewAwaiter false; PollAwaiter 0; PollAwaiter 0; PollTask 0; PollAwaiter 0; Complete 0; RunAll []] in
+  value s = Some 7007%Z /\ loading s = false /\ awaiters s = [APending 3 1] /\ quiescentb s = true.
+Proof. vm_compute. auto. Qed.
+
+Example ex_suspense :
+  let evs := [RunAll []; Complete 0; RunAll []; NewAwaiter true; PollAwaiter 0; WriteSig 0 1; RunAll []] in
+  let s := run (ok_cfg 0 0) None evs in
+  loading s = true /\ susp_held s = 1%nat /\
+  susp_held (run (ok_cfg 0 0) None (evs ++ [Complete 1; RunAll []])) = 0%nat.
+Proof. vm_compute. auto. Qed.
